@@ -246,7 +246,10 @@ def proj_behaviour(l, op=""):
 
 
 def proj_physical(l, op=""):
-    return (l.ret, tuple(l.events), l.start, l.size, tuple(l.window), l.allocs, l.views, l.crash)
+    """everything, including front position and slot numbers; the order of the lifecycle events within
+    one call is not part of any property (only C18 compares it, against the other build)"""
+    ev = sorted(e for e in l.events if not e.startswith("Q"))
+    return (l.ret, tuple(ev), l.start, l.size, tuple(l.window), l.allocs, l.views, l.crash)
 
 
 def proj_alloc(l, op=""):
